@@ -138,6 +138,48 @@ def cause_from_tag(observed: str) -> str | None:
     return f"class_name_is_{m.group(1)}" if m else None
 
 
+def alias_tag(code: str, doc) -> str:
+    """pydantic-v2 output: a member `X_n: …X… = Field(…, alias='X')` whose alias X is NO key of the document — the member-rename pass
+    (a member spelled like the class of its own type gets a new name and the OLD PYTHON NAME as alias) ran on a member that already had
+    an alias (its key is not its Python name), and the wire name is lost"""
+    import ast
+
+    try:
+        tree = ast.parse(code)
+    except SyntaxError:
+        return ""
+    keys: set[str] = set()
+
+    def collect(v):
+        if isinstance(v, dict):
+            for k, x in v.items():
+                keys.add(k)
+                collect(x)
+        elif isinstance(v, list):
+            for x in v:
+                collect(x)
+
+    collect(doc)
+    classes = {n.name for n in tree.body if isinstance(n, ast.ClassDef)}
+    for cls in tree.body:
+        if not isinstance(cls, ast.ClassDef):
+            continue
+        for st in cls.body:
+            if not (isinstance(st, ast.AnnAssign) and isinstance(st.target, ast.Name) and isinstance(st.value, ast.Call)):
+                continue
+            for kw in st.value.keywords:
+                if kw.arg == "alias" and isinstance(kw.value, ast.Constant) and isinstance(kw.value.value, str):
+                    x = kw.value.value
+                    named = {n.id for n in ast.walk(st.annotation) if isinstance(n, ast.Name)}
+                    if x not in keys and x in classes and x in named and re.fullmatch(re.escape(x) + r"_\d+", st.target.id):
+                        return f" [alias-is-python-name:{x}]"
+    return ""
+
+
+def cause_from_alias_tag(observed: str) -> str | None:
+    return "renamed_member_alias_is_python_name" if "[alias-is-python-name:" in observed else None
+
+
 def array_sites(v, out: list | None = None) -> list[str]:
     """the keys of every member whose value is an array that holds an object (directly or through nested arrays)"""
     out = [] if out is None else out
@@ -284,9 +326,10 @@ def real_first_name(key: str) -> str:
     return ModelResolver().get_class_name(key, unique=False, singular_name=True).name
 
 
-def real_final_names(keys: list[str]) -> list[str]:
-    """the class names of array-item classes for `keys` (one class per key, in this order) after the two stages: ModelResolver.add(singular_name=True)
-    of the main resolver, then Parser.__replace_duplicate_name_in_module on real DataModel objects"""
+def real_two_stages(keys: list[str]) -> tuple[tuple[list[str], list[list[str]]], list[str]]:
+    """the array-item classes for `keys` (one class per key, in this order) through the two stages: ModelResolver.add(singular_name=True) of the
+    main resolver → [path, class name, first desired name ('' = none)] per class; then Parser.__replace_duplicate_name_in_module on real
+    DataModel objects (the names they import are the scoped resolver's exclude_names) → the final class names"""
     from datamodel_code_generator.model.pydantic_v2 import BaseModel
     from datamodel_code_generator.parser.base import Parser
     from datamodel_code_generator.reference import ModelResolver
@@ -296,8 +339,14 @@ def real_final_names(keys: list[str]) -> list[str]:
     for i, k in enumerate(keys):
         ref = main.add(["doc.json", "properties", f"p{i}", k, "items"], k, class_name=True, singular_name=True, unique=True, loaded=True)
         models.append(BaseModel(reference=ref, fields=[]))
+    stage1 = [[m.path, m.class_name, m.duplicate_class_name or ""] for m in models]
+    imported = sorted({i.alias or i.import_ for m in models for i in m.imports})
     Parser._Parser__replace_duplicate_name_in_module(models)
-    return [m.class_name for m in models]
+    return (imported, stage1), [m.class_name for m in models]
+
+
+def real_final_names(keys: list[str]) -> list[str]:
+    return real_two_stages(keys)[1]
 
 
 def campaign_names(ck: Check, n: int) -> None:
@@ -323,12 +372,35 @@ def campaign_names(ck: Check, n: int) -> None:
         if rng.chance(1, 3):
             ks[-1] = ks[0]
         lists.append(ks)
+    staged = []
     for ks in lists:
-        camp.evaluations += 1
         try:
-            names = real_final_names(ks)
+            staged.append(real_two_stages(ks))
         except Exception as e:  # noqa: BLE001
-            ck.disagree(camp, {"keys": ks}, "class names", f"{type(e).__name__}: {str(e)[:200]}")
+            staged.append(e)
+    # the second stage in Lean (Model.Resolver.replaceDuplicateNameInModule, the function theorems C16.item_class_* are about) on what the
+    # first stage really produced; a class name outside ASCII is answered `unmodelled`
+    lines = ["res.modpass (" + " ".join(hx(x) for x in st[0][0]) + ") (" + " ".join("(" + " ".join(hx(x) for x in m) + ")" for m in st[0][1]) + ")"
+             if not isinstance(st, Exception) else "res.modpass () ()"
+             for st in staged]
+    replies = ck.driver.run(lines)
+    for ks, st, rep in zip(lists, staged, replies):
+        camp.evaluations += 1
+        if isinstance(st, Exception):
+            ck.disagree(camp, {"keys": ks}, "class names", f"{type(st).__name__}: {str(st)[:200]}")
+            continue
+        (imported, stage1), names = st
+        if rep.startswith("ok (") and rep.endswith(")"):
+            model = [unhx(x) for x in rep[4:-1].split()]
+            camp.hit("lean_second_stage:compared")
+            if model != names:
+                ck.disagree(camp, {"keys": ks, "imported": imported, "stage1": stage1, "what": "final class names: Lean replaceDuplicateNameInModule vs Parser.__replace_duplicate_name_in_module"},
+                            repr(model), repr(names))
+                continue
+        elif rep == "unmodelled":
+            camp.unmodelled += 1
+        else:
+            ck.disagree(camp, {"keys": ks, "stage1": stage1, "what": "driver reply"}, rep[:200], repr(names))
             continue
         camp.distinct.add(json.dumps(ks))
         bad = [nm for nm in names if unusable(nm)]
